@@ -153,6 +153,20 @@ def w2(ctx, type_paths, rule="W2", accept_cond_only_for=("Vec", "Option")):
                     out.append((f.kind, f.name, f.size, f.endian, f.cond, f))
             return out
 
+        # length-calc agreement: a string written with write_string (NUL-terminated) and read with count = L
+        # needs L calc-ed as get_string_len(field) (which counts the NUL) on the write side
+        for f in it["fields"]:
+            ds = W.directives(f["attrs"])
+            wmap = [d for d in ds if d.name == "map" and "w" in d.side and d.text.replace(" ", "") == "write_string"]
+            cnt = [d for d in ds if d.name == "count" and "r" in d.side]
+            if wmap and cnt and len(cnt[0].value) == 1 and isinstance(cnt[0].value[0], str):
+                lname = cnt[0].value[0]
+                lf = [g for g in it["fields"] if g["name"] == lname]
+                if lf:
+                    calc = [d.text.replace(" ", "") for d in W.directives(lf[0]["attrs"]) if d.name == "calc" and "w" in d.side]
+                    ok = bool(calc) and calc[0].startswith(f"get_string_len({f['name']})")
+                    ctx.ob(rule, f"{path}.{lname}|strlen", ok, f"{path}.{f['name']} is written NUL-terminated by write_string and read with count = {lname}; {lname} is written as {calc}, must be get_string_len({f['name']})", it["file"], lf[0]["line"])
+                    decided += 1
         r, w_ = norm(rs), norm(ws)
         # align by position; names of data fields must agree
         i = j = 0
@@ -187,8 +201,11 @@ def w2(ctx, type_paths, rule="W2", accept_cond_only_for=("Vec", "Option")):
                 # endian
                 if a[3] and b[3] and (a[2] or 0) > 1:
                     ctx.ob(rule, key + "|endian", a[3] == b[3], f"{key}: reader {a[3]}-endian, writer {b[3]}-endian", it["file"], f_.line, trivial=True)
-                # presence
-                if a[4] != b[4]:
+                # presence (the writer sees fields by reference: `*x != ..` is the same condition as `x != ..`)
+                def _c(x):
+                    return None if x is None else x.replace(" ", "").replace("*", "")
+
+                if _c(a[4]) != _c(b[4]):
                     base = (a[5].ty or "").split("<")[0]
                     if a[4] and not b[4] and base in accept_cond_only_for:
                         ctx.ob(rule, key + "|presence", True, f"{key}: read under if({a[4]}); the writer emits the container's content (nothing when absent)", it["file"], f_.line, trivial=True)
